@@ -188,23 +188,64 @@ class C15(Check):
         nn = self.N_QUICK if tier == "quick" else self.N_THOROUGH
         out = []
         corpus = os.path.join(VERIF, "corpus", "C15")
+        bd_corpus = None
         if os.path.isdir(corpus):
             # minimized earlier failures (S1, mutation witnesses) run first
             p = os.path.join(WORK, "corpus_C15.jsonl")
+            pb = os.path.join(WORK, "corpus_C15_bd.jsonl")
             os.makedirs(WORK, exist_ok=True)
-            with open(p, "w") as f:
+            nb = 0
+            with open(p, "w") as f, open(pb, "w") as fb:
                 for name in sorted(os.listdir(corpus)):
                     if name.endswith(".json"):
-                        f.write(json.dumps(json.load(open(os.path.join(corpus, name)))) + "\n")
+                        obj = json.load(open(os.path.join(corpus, name)))
+                        if (obj.get("in") or {}).get("bd"):
+                            fb.write(json.dumps(obj) + "\n")
+                            nb += 1
+                        else:
+                            f.write(json.dumps(obj) + "\n")
             out.append(["c15", "-replay", p])
+            if nb:
+                bd_corpus = pb
         out.append(["c15", "-n", str(nn), "-seed", str(seed), "-tier", tier])
+        # the bitcoind backend as the producer of the notifications: the REAL
+        # BitcoindConn (RPC polling) + BitcoindClient against a loopback stub
+        # node, the stream applied to a real wallet (harness/cmd/c15bd)
+        okb, blog = build_harness("c15bd")
+        self.bd_build_log = "" if okb else blog
+        if bd_corpus:
+            out.append(["c15bd", "-replay", bd_corpus])
+        out.append(["c15bd", "-n", str(self.N_BD_QUICK if tier == "quick" else self.N_BD_THOROUGH), "-seed", str(seed), "-tier", tier])
         return out
+
+    N_BD_QUICK = 40
+    N_BD_THOROUGH = 400
+
+    def run(self, tier, seed, replay=None):
+        # a replay of a bitcoind-producer case goes to harness/cmd/c15bd
+        self._cmd = "c15"
+        if replay:
+            try:
+                first = json.loads(open(replay).readline())
+                if (first.get("in") or {}).get("bd"):
+                    self._cmd = "c15bd"
+            except (OSError, ValueError):
+                pass
+        return super().run(tier, seed, replay)
+
+    def vh_cmd(self):
+        return getattr(self, "_cmd", "c15")
 
     def nontrivial(self, c):
         t = set(c.get("tags", []))
+        if "bitcoind_reorg_deeper_than_one" in t:
+            return True
         return bool(t & {"wallet_tx_in_replaced_block", "offline_reorg_of_wallet_tx_block", "first_sync", "startup_attempt_failed", "startup_with_recovery_window"})
 
     def sample(self, c):
+        if "bd" in c:
+            return dict(input=c["in"], tags=c.get("tags"), oracle=c.get("oracle"),
+                        last_step=(c["bd"]["steps"] or [None])[-1])
         evs = c["obs"]["events"]
         last = [e for e in evs if e.get("obs")][-1:]
         return dict(input=c["in"], tags=c.get("tags"), notifications=len(evs), oracle=c.get("oracle"),
@@ -224,7 +265,64 @@ Print bad.
 Print dr.
 """ % clist(["\n " + r_case(c) for c in cases])
 
+    def render_bd(self, cases):
+        def r_ntfn(n):
+            return "%s %s %d%%N %s" % ("nc" if n["k"] == "conn" else "nd", zi(n["h"]), n["b"] + 1, zi(n["t"]))
+
+        def r_bd(c):
+            b = c["bd"]
+            tm = {x["id"]: x for x in b["blocks"]}
+            first = tm[b["steps"][0]["best0"]] if b["steps"] else tm[0]
+            tree = clist(["(%d%%N, %d%%N, %s, %s)" % (x["id"] + 1, x["prev"] + 1, zi(x["h"]), zi(x["t"])) for x in b["blocks"]])
+            steps = clist(["\n    {| bs_handed := %s; bs_ntfns := %s; bs_best := %d%%N |}" % (
+                clist(["%d%%N" % (h + 1) for h in st["handed"]]), clist([r_ntfn(n) for n in st["ntfns"] or []]), st["client"] + 1)
+                for st in b["steps"]])
+            return "{| bc_tree := %s;\n   bc_best := bmk %s %d%%N %s;\n   bc_steps := %s |}" % (
+                tree, zi(first["h"]), first["id"] + 1, zi(first["t"]), steps)
+        return """From stdpp Require Import gmap list numbers.
+From Coq Require Import ZArith NArith.
+From Verif Require Import Sync.Sync Sync.BitcoindReorg Sync.BitcoindReorgCorr.
+Local Open Scope Z_scope.
+Definition cases : list bcase :=
+%s.
+Definition bad := Eval vm_compute in bd_failures cases.
+Print bad.
+""" % clist(["\n " + r_bd(c) for c in cases])
+
+    BD_DIFF = {1: "the model reports a failed node request", 2: "notification stream", 3: "client's best block"}
+
+    def evaluate_bd(self, cases, idx):
+        """model Sync/BitcoindReorg.v against the real client on the c15bd cases"""
+        if not idx:
+            return [], "", []
+        rc, out, err = coq_eval(self.ID, self.render_bd([cases[i] for i in idx]), "cases_bd")
+        if rc != 0:
+            return [], out[-600:] + err[-600:], ["correspondence (bitcoind producer): cases file does not evaluate: " + (err or out)[-1500:]]
+        printed = parse_printed(out, "bad")
+        if printed is None:
+            return [], out[-600:], ["correspondence (bitcoind producer): could not parse model output: " + out[-500:]]
+        nums = [int(x) for x in re.findall(r"\d+", printed)]
+        mism = []
+        for j in range(0, len(nums) - 2, 3):
+            ci, st, code = idx[nums[j]], nums[j + 1], nums[j + 2]
+            cases[ci]["model_diff"] = dict(step=st, site="BitcoindClient", differs=self.BD_DIFF.get(code, str(code)))
+            mism.append(ci)
+        return mism, out[-300:], []
+
     def evaluate_model(self, cases):
+        if getattr(self, "bd_build_log", ""):
+            self._bd_problem = ["harness/cmd/c15bd does not build against the repository: " + self.bd_build_log[-2000:]]
+        bd_idx = [i for i, c in enumerate(cases) if "bd" in c]
+        bd_mism, bd_log, bd_prob = self.evaluate_bd(cases, bd_idx)
+        bd_prob = bd_prob + getattr(self, "_bd_problem", [])
+        if not bd_idx and not getattr(self, "_cmd", "c15") == "c15":
+            bd_prob.append("correspondence (bitcoind producer): no case was run")
+        other = [i for i, c in enumerate(cases) if "bd" not in c]
+        sub = [cases[i] for i in other]
+        m2, logs2, prob2 = self._evaluate_sync(sub) if sub else ([], "", [])
+        return sorted(set(bd_mism + [other[i] for i in m2])), logs2 + bd_log, prob2 + bd_prob
+
+    def _evaluate_sync(self, cases):
         mism, logs, problems = [], "", []
         # long chains get a shard of their own
         shards, cur = [], []
@@ -270,6 +368,8 @@ Print dr.
     # greedy reduction of a failing input: drop ops / blocks / stale entries while the same kind is reported
     def shrink(self, case, kind):
         import copy, tempfile
+        if "bd" in case:
+            return self.shrink_bd(case, kind)
         best = case
         runs = [0]
 
@@ -338,6 +438,33 @@ Print dr.
                 if got is not None:
                     best = got
                     progress = True
+                    break
+        return best
+
+
+    def shrink_bd(self, case, kind):
+        """drop steps of a bitcoind-producer case while the same clause is violated"""
+        import copy, tempfile
+        best, runs = case, 0
+        progress = True
+        while progress and runs < 30:
+            progress = False
+            steps = best["in"]["steps"]
+            for i in range(len(steps) - 1, -1, -1):
+                if len(steps) <= 1:
+                    break
+                inp = copy.deepcopy(best["in"])
+                del inp["steps"][i]
+                runs += 1
+                with tempfile.NamedTemporaryFile("w", suffix=".jsonl", delete=False, dir=WORK) as f:
+                    f.write(json.dumps({"in": inp}) + "\n")
+                    p = f.name
+                try:
+                    rc, cs, err = run_vh(["c15bd", "-replay", p], timeout=300)
+                finally:
+                    os.unlink(p)
+                if rc == 0 and cs and kind in cs[0].get("oracle", []):
+                    best, progress = cs[0], True
                     break
         return best
 
